@@ -12,6 +12,7 @@ import (
 
 	netty "github.com/go-netty/go-netty"
 	"github.com/go-netty/go-netty/utils"
+	"github.com/go-netty/go-netty/zz_verif/hlib"
 	"github.com/go-netty/go-netty/zz_verif/mock"
 	"github.com/go-netty/go-netty/zz_verif/vsched"
 )
@@ -143,7 +144,7 @@ func Encode(handlers []netty.Handler, msgs ...any) (wire []byte, exceptions []er
 	pl.AddLast(handlers...)
 	pl.AddLast(sink)
 	ch := netty.NewChannel()(1, context.Background(), pl, t, Inline{})
-	netty.VerifAttachChannel(pl, ch)
+	hlib.AttachChannel(pl, ch)
 	for _, m := range msgs {
 		if err := ch.Write(m); err != nil {
 			sink.Exceptions = append(sink.Exceptions, err)
